@@ -85,6 +85,16 @@ def prune_numba_caches(keep: str) -> None:
             shutil.rmtree(d, ignore_errors=True)
 
 
+def warm_jit(boundscheck: bool = False) -> float:
+    """Make sure the compiled engine of the current tree is in the cache before parallel workers start."""
+    t0 = time.time()
+    p = subprocess.run([PY, str(HARNESS / "warm_jit.py")], env=nucs_env(jit=True, boundscheck=boundscheck),
+                       capture_output=True, text=True, timeout=1200)
+    if p.returncode != 0:
+        raise Machinery(f"the compiled engine does not build / run: {p.stderr[-1500:]}")
+    return time.time() - t0
+
+
 class Scratch:
     """Scratch directory under /verif/.cache/tmp, removed at exit."""
 
@@ -306,6 +316,64 @@ def run_workers(script: str, jobs: list[dict], env: dict, scratch: Path, timeout
     with ThreadPoolExecutor(max_workers=nproc) as ex:
         outs = list(ex.map(one, range(len(jobs))))
     return outs
+
+
+def run_workers_resilient(script: str, jobs: list[dict], env: dict, scratch: Path, item_timeout: float = 120.0,
+                          nproc: int = NCPU, key: str = "rid"):
+    """Like run_workers for jobs of the form {"items": [...], ...}, but a worker that stops producing output lines
+    for item_timeout seconds (compiled code cannot be interrupted from Python) is killed; the item it was working
+    on is reported in the returned 'skipped' list and the remaining items are handed to a fresh worker.
+    The worker must write (and flush) exactly one line per item, in order.  Returns (output paths, skipped items)."""
+    skipped = []
+
+    def one(k):
+        outs = []
+        items = list(jobs[k]["items"])
+        part = 0
+        while items:
+            out = scratch / f"{Path(script).stem}-{k}-{part}.ndjson"
+            jf = scratch / f"{Path(script).stem}-{k}-{part}.job.json"
+            jf.write_text(json.dumps(dict(jobs[k], items=items)))
+            p = subprocess.Popen([PY, str(HARNESS / script), str(jf), str(out)], env=env, stdout=subprocess.DEVNULL,
+                                 stderr=subprocess.PIPE, text=True, cwd=str(scratch))
+            last_n, last_t = 0, time.time()
+            killed = False
+            while p.poll() is None:
+                time.sleep(0.5)
+                n = 0
+                if out.exists():
+                    with open(out, "rb") as fh:
+                        n = fh.read().count(b"\n")
+                if n != last_n:
+                    last_n, last_t = n, time.time()
+                elif time.time() - last_t > item_timeout + (40 if last_n == 0 else 0):
+                    p.kill()
+                    killed = True
+                    break
+            p.wait()
+            done = 0
+            if out.exists():
+                with open(out, "rb") as fh:
+                    data = fh.read()
+                done = data.count(b"\n")
+                if not data.endswith(b"\n") and data:   # drop a partial last line
+                    with open(out, "wb") as fh:
+                        fh.write(data[: data.rfind(b"\n") + 1])
+                outs.append(out)
+            if killed:
+                skipped.append(items[done])
+                items = items[done + 1:]
+            elif p.returncode != 0:
+                err = p.stderr.read()[-3000:] if p.stderr else ""
+                raise Machinery(f"{script} job {k} failed rc={p.returncode}\n{err}")
+            else:
+                items = []
+            part += 1
+        return outs
+
+    with ThreadPoolExecutor(max_workers=nproc) as ex:
+        res = list(ex.map(one, range(len(jobs))))
+    return [o for outs in res for o in outs], skipped
 
 
 def read_ndjson(paths):
